@@ -220,6 +220,27 @@ def r121(rep: Report, ctx: Ctx, sql) -> None:
     rep.ob("R12.1", "the inner grouping runs over the outer group", ok,
            fi=stream, node=inner, detail=f"groupby({unparse(inner.args[0])}"
            f", key=job_id) inside `for _, {grp} in groupby(..job_name)`")
+    # the database orders by the columns' collation, Python groups by string
+    # equality: they agree only for the default (binary) collation
+    nm = ctx.index.cls("NodeModel")
+    for col in ("job_name", "job_id"):
+        decl = [st for n_, st in nm.fields() if n_ == col]
+        coll = None
+        if decl and decl[0].value is not None:
+            for c_ in ast.walk(decl[0].value):
+                if isinstance(c_, ast.keyword) and c_.arg == "collation":
+                    coll = unparse(c_.value)
+        ok = coll is None or coll.strip("'\"").upper() == "BINARY"
+        rep.ob("R12.1", f"nodes.{col} sorts the way Python compares strings",
+               ok, detail=("default collation" if coll is None else
+                           f"collation {coll}: ORDER BY treats values as "
+                           "equal / ordered differently from the "
+                           "case-sensitive groupby over the stream - a "
+                           "workflow name is yielded several times with "
+                           "part of its traces"))
+        rep.obligations[-1].func = nm.qualname
+        rep.obligations[-1].file = nm.module.relpath
+        rep.obligations[-1].line = decl[0].lineno if decl else 0
     # per-trace reader
     rd = ctx.func("SQLDataHolder.get_otel_events_from_job_ids")
     it2 = sql.run(rd, follow=False)
